@@ -231,6 +231,100 @@ def s2_txn_leader_move(src):
         src.check(log0 == [b"a1", b"a2", b"a3"], "partition 0 does not hold the records in send order after commit", log=[x.decode() for x in log0], **info)
 
 
+# ------------------------------------------------------------------------------------------
+# S3: a partition without a leader for longer than the batch time-to-live: the waiting batch fails (the
+# application is told), and what is sent afterwards must still carry gap-free sequence numbers
+
+
+def s3_leaderless_expiry(src):
+    import asyncio
+    import aiokafka.errors as E
+    from aiokafka import AIOKafkaProducer
+    from env import simkafka, vloop
+
+    idem = src.flag("idempotent")
+    outage = [0.4, 1.6, 2.4][src.choice("leaderless_for", 3)]      # request timeout (= batch ttl) is 1 s
+    before = src.choice("records_acknowledged_before_the_outage", 2)
+    during = 1 + src.choice("records_sent_during_the_outage", 2)
+    cluster = simkafka.Cluster(nodes=(0, 1), topics={"t": 2})
+    res = {"during": [], "after": []}
+
+    async def main(loop):
+        with simkafka.installed(cluster):
+            kw = dict(bootstrap_servers="h0:9092", request_timeout_ms=1000, retry_backoff_ms=100, metadata_max_age_ms=300000)
+            if idem:
+                kw["enable_idempotence"] = True
+            p = AIOKafkaProducer(**kw)
+            await p.start()
+            try:
+                for i in range(before):
+                    await (await p.send("t", b"b%d" % i, key=b"k", partition=0))
+                real = cluster.leader[("t", 0)]
+                cluster.leader[("t", 0)] = -1
+                await p.client.force_metadata_update()
+                futs = []
+                for i in range(during):
+                    try:
+                        futs.append(await p.send("t", b"d%d" % i, key=b"k", partition=0))
+                    except E.KafkaError as e:
+                        res["during"].append("send raised " + type(e).__name__)
+                await asyncio.sleep(outage)
+                cluster.leader[("t", 0)] = real
+                await p.client.force_metadata_update()
+                await asyncio.sleep(0.3)
+                for f in futs:
+                    if f.done():
+                        res["during"].append("ok" if f.exception() is None else type(f.exception()).__name__)
+                    else:
+                        res["during"].append("pending")
+                for i in range(2):
+                    try:
+                        f = await p.send("t", b"a%d" % i, key=b"k", partition=0)
+                        await asyncio.wait_for(f, 10)
+                        res["after"].append("ok")
+                    except asyncio.TimeoutError:
+                        res["after"].append("pending after 10 s")
+                    except E.KafkaError as e:
+                        res["after"].append(type(e).__name__)
+            finally:
+                try:
+                    await asyncio.wait_for(p.stop(), 20)
+                except (asyncio.TimeoutError, asyncio.CancelledError, Exception) as e:  # noqa: BLE001
+                    res["stop"] = repr(e)
+
+    try:
+        vloop.run(main, max_vtime=200.0)
+    except vloop.Deadlock as e:
+        res["deadlock"] = str(e)
+    c = cluster
+    info = dict(idempotent=idem, leaderless_for=outage, before=before, during=res["during"], after=res["after"],
+                presented=[x[3:] for x in c.seq_presented][:8])
+    src.note(info)
+    src.check("deadlock" not in res, "producer run did not finish in bounded virtual time: " + str(res.get("deadlock")), **info)
+    ok = not c.seq_errors
+    if src.twin:
+        ok = not ok
+    src.check(ok, "a sequence gap / reused sequence was presented to a broker (OUT_OF_ORDER_SEQUENCE) after a batch had expired "
+              "while its partition had no leader", detail=str(c.seq_errors[:2]), **info)
+    src.check(all(x == "ok" for x in res["after"]) and len(res["after"]) == 2,
+              "records sent after the leader came back were not acknowledged although no fault is active any more", **info)
+    log0 = [r[2] for r in prodsim.log_records(c, ("t", 0))]
+    acked = [b"b%d" % i for i in range(before)] + [b"d%d" % i for i, x in enumerate(res["during"]) if x == "ok"] + [b"a0", b"a1"]
+    src.check([v for v in log0 if v in acked] == acked, "acknowledged records are not in the log in send order", log=[v.decode() for v in log0], **info)
+
+
+def _s3(tier):
+    from aiokafka.producer.message_accumulator import MessageAccumulator
+    return [Harness(
+        name="S3_leaderless_expiry", fn=s3_leaderless_expiry,
+        functions=[MessageAccumulator.drain_by_nodes, MessageAccumulator._pop_batch], shape="S",
+        symbolic_vars="choices: idempotence, length of the leaderless window (shorter / longer than the batch time-to-live), records before and during it",
+        bounds={"records": "3..5", "partitions": 1},
+        stubs=["AIOKafkaConnection -> SimConn (request-level cluster model, env/simkafka.py)", "virtual-time event loop"],
+        assumptions=["broker behaviour as modelled in env/simkafka.py (sequence rule: DESIGN Appendix B1)"],
+        max_seconds=300, max_paths=10000, twin_max_paths=100)]
+
+
 def _s2(tier):
     from aiokafka.producer.sender import Sender
     from aiokafka.producer.message_accumulator import MessageAccumulator
@@ -249,4 +343,4 @@ _k_harnesses = harnesses
 
 
 def harnesses(tier):  # noqa: F811
-    return _k_harnesses(tier) + _s1(tier) + _s2(tier)
+    return _k_harnesses(tier) + _s1(tier) + _s2(tier) + _s3(tier)
